@@ -158,6 +158,25 @@ func (t *Term) HasFree(n string) bool { return t.free[n] }
 var True = mk("true", Bool)
 var False = mk("false", Bool)
 
+// ResetTerms empties the hash-consing table (terms of a previous program must not be reused:
+// their datatype sorts are different objects). True and False are kept.
+func ResetTerms() {
+	if baseTable == nil {
+		// first call (before any program is loaded): remember the terms built by package initialisers
+		baseTable = map[string]*Term{}
+		for k, v := range consTable {
+			baseTable[k] = v
+		}
+		return
+	}
+	consTable = map[string]*Term{}
+	for k, v := range baseTable {
+		consTable[k] = v
+	}
+}
+
+var baseTable map[string]*Term
+
 func BoolLit(b bool) *Term {
 	if b {
 		return True
